@@ -11,6 +11,9 @@
 //	    the rules inside the annotation            (diff "C08-order")
 //	(2) the verdict equals rulesOK(ctx, rules), a predicate written from the
 //	    property statement                          (diff "C08-spec")
+//	(3) rule names are spelled bare (min), quoted ("min") or mixed, also inside or
+//	    rule-sets; rulesOK does not see the spelling, and every set is re-checked
+//	    with all names bare and all names quoted: same verdict (diff "C08-spelling")
 //
 // CALIBRATION DECISIONS — where the statement is silent or ambiguous the
 // unchanged tree was asked by experiment; every decision is a rule-level
@@ -61,6 +64,13 @@
 //	      accepted when every member is a bare JSON type name (no rule-sets, no user
 //	      types), companions optional / nullable / type: "mixed"; it widens the
 //	      reference, and there is no admission check (the node has no example value).
+//	[C21] An enum rule-set member of an `or` ({enum: [...]}, optionally with type: "enum" /
+//	      nullable) has no JSON kind: it admits a scalar example iff the example token is one
+//	      of its items (or the example is null and the member says nullable: true). It also
+//	      admits an EMPTY object/array example — that is the behaviour recorded under C04 as
+//	      known finding K-C04-or-container (a member of undetermined JSON type admits any
+//	      empty container); C08 follows the tree here and does not re-report it.
+//	      Inside a member rule-set enum excludes foreign rules and scalar types as at top level.
 //
 // KNOWN FINDING recognised structurally: K-C08-ref-type-or — on a `@t` example node
 // a user-written `type` rule bypasses the duplicate check: the rules {type: "@t" (the
@@ -163,24 +173,51 @@ type oalt struct {
 	typ     string // type name of the member ("integer", "@t", …)
 	ruleSet bool   // written as a rule-set {type: …} rather than a bare name
 	hasMin  bool
+	// an enum rule-set member {enum: [...]}: it has no JSON kind of its own
+	enum     bool
+	items    []string
+	nullable bool // the member also says nullable: true
 	min    int64 // scaled by 100
 }
 
 type param struct {
 	text  string
+	qtext string // the same value with the rule names inside rule-sets quoted ("" = same as text)
 	num   int64 // min/max scaled by 100; lengths, counts, precision as is
 	b     bool
 	s     string
 	alts  []oalt
+	bad   bool // or: a member rule-set is inconsistent in itself (enum next to a foreign rule / a scalar type)
 	items []string
 }
 
 type rl struct {
-	name string
-	p    param
+	name   string
+	p      param
+	quoted bool // the rule name is spelled "name" (with quotes) — a spelling, not part of the rule set
 }
 
-func (r rl) String() string { return r.name + ": " + r.p.text }
+// String prints the rule; a quoted rule also quotes the names inside its rule-sets.
+func (r rl) String() string {
+	if r.quoted {
+		t := r.p.text
+		if r.p.qtext != "" {
+			t = r.p.qtext
+		}
+		return `"` + r.name + `": ` + t
+	}
+	return r.name + ": " + r.p.text
+}
+
+// spelled returns the rules with every name bare (q=false) or quoted (q=true).
+func spelled(rs []rl, q bool) []rl {
+	out := make([]rl, len(rs))
+	for i, r := range rs {
+		out[i] = r
+		out[i].quoted = q
+	}
+	return out
+}
 
 var ruleNames = []string{"minLength", "maxLength", "min", "max", "exclusiveMinimum", "exclusiveMaximum", "type", "precision",
 	"optional", "minItems", "maxItems", "additionalProperties", "nullable", "regex", "const", "or", "enum", "allOf", "foo"}
@@ -232,7 +269,11 @@ func params(name string, c ctx) []param {
 		}
 		return out
 	case "or":
-		mk := func(text string, alts ...oalt) param { return param{text: text, alts: alts} }
+		bad := func(p param) param { p.bad = true; return p }
+		mk := func(text string, alts ...oalt) param {
+			q := strings.NewReplacer("type:", `"type":`, "min:", `"min":`, "enum:", `"enum":`, "nullable:", `"nullable":`).Replace(text)
+			return param{text: text, qtext: q, alts: alts}
+		}
 		return []param{
 			mk(`["integer", "string"]`, oalt{typ: "integer"}, oalt{typ: "string"}),
 			mk(`["float", "boolean"]`, oalt{typ: "float"}, oalt{typ: "boolean"}),
@@ -242,6 +283,13 @@ func params(name string, c ctx) []param {
 			mk(`[{min: 5, type: "integer"}, {type: "float", min: 2.25}]`, oalt{typ: "integer", ruleSet: true, hasMin: true, min: 500}, oalt{typ: "float", ruleSet: true, hasMin: true, min: 225}),
 			mk(`["@t", "string"]`, oalt{typ: "@t"}, oalt{typ: "string"}),
 			mk(`[{type: "@t"}, {type: "boolean"}]`, oalt{typ: "@t", ruleSet: true}, oalt{typ: "boolean", ruleSet: true}),
+			// enum rule-set members
+			mk(`[{enum: [5, "a@b.cc", null, 2.25]}, "boolean"]`, oalt{ruleSet: true, enum: true, items: []string{"5", `"a@b.cc"`, "null", "2.25"}}, oalt{typ: "boolean"}),
+			mk(`[{enum: [6, "x"]}, "string"]`, oalt{ruleSet: true, enum: true, items: []string{"6", `"x"`}}, oalt{typ: "string"}),
+			mk(`[{type: "enum", enum: [5, 2.25]}, {type: "null"}]`, oalt{ruleSet: true, enum: true, items: []string{"5", "2.25"}}, oalt{typ: "null", ruleSet: true}),
+			mk(`[{enum: [6, true], nullable: true}, "string"]`, oalt{ruleSet: true, enum: true, nullable: true, items: []string{"6", "true"}}, oalt{typ: "string"}),
+			bad(mk(`[{enum: [5, true], min: 1}, "string"]`, oalt{ruleSet: true, enum: true, items: []string{"5", "true"}}, oalt{typ: "string"})),
+			bad(mk(`[{type: "integer", enum: [5]}, "string"]`, oalt{ruleSet: true, enum: true, items: []string{"5"}}, oalt{typ: "string"})),
 		}
 	case "enum":
 		return []param{
@@ -371,7 +419,24 @@ func rulesOK(c ctx, rs []rl) bool {
 		if container && !empty { // [C6]
 			return false
 		}
+		if m["or"].bad { // enum inside a member rule-set is not combined with foreign rules either
+			return false
+		}
 		for _, a := range m["or"].alts { // [C7]
+			if a.enum { // [C21]
+				switch {
+				case empty:
+					return true
+				case kind == "null" && a.nullable:
+					return true
+				}
+				for _, it := range a.items {
+					if it == exampleToken(c.val) {
+						return true
+					}
+				}
+				continue
+			}
 			ak := a.typ
 			if ak == "@t" {
 				ak = "integer" // kind of the root example of @t
@@ -650,7 +715,16 @@ func randomCase(r *rand.Rand, size int, dup bool) rcase {
 	idx := r.Perm(len(pool))[:size]
 	rs := make([]rl, 0, size+1)
 	for _, i := range idx {
-		rs = append(rs, rl{pool[i], pickParam(r, pool[i], c, rel && r.Intn(10) < 7)})
+		rs = append(rs, rl{name: pool[i], p: pickParam(r, pool[i], c, rel && r.Intn(10) < 7)})
+	}
+	// spelling of the rule names: bare, all quoted, or mixed
+	switch r.Intn(5) {
+	case 0:
+		rs = spelled(rs, true)
+	case 1, 2:
+		for i := range rs {
+			rs[i].quoted = r.Intn(2) == 0
+		}
 	}
 	if size >= 3 && r.Intn(8) == 0 {
 		// both false-valued booleans that the compiler filters out, next to other rules
@@ -663,7 +737,7 @@ func randomCase(r *rand.Rand, size int, dup bool) rcase {
 		for len(keep) > size-2 {
 			keep = keep[:len(keep)-1]
 		}
-		rs = append(keep, rl{"nullable", boolParams()[1]}, rl{"const", boolParams()[1]})
+		rs = append(keep, rl{name: "nullable", p: boolParams()[1]}, rl{name: "const", p: boolParams()[1]})
 		r.Shuffle(len(rs), func(i, j int) { rs[i], rs[j] = rs[j], rs[i] })
 	}
 	if dup {
@@ -773,7 +847,7 @@ func knownRefTypeOr(rc rcase) string {
 // knownStream: a small dedicated stream that exercises K-C08-ref-type-or in every run.
 func knownStream() []rcase {
 	var out []rcase
-	ty := func(s string) rl { return rl{"type", strParam(s)} }
+	ty := func(s string) rl { return rl{name: "type", p: strParam(s)} }
 	seqs := [][]rl{{ty("@t")}, {ty("mixed"), ty("mixed")}, {ty("@t"), ty("@t")}, {ty("@t"), ty("mixed")}}
 	k := 0
 	for _, pos := range positions {
@@ -781,9 +855,9 @@ func knownStream() []rcase {
 		ors := params("or", c)[:3]
 		for _, sq := range seqs {
 			rs := append([]rl{}, sq...)
-			rs = append(rs, rl{"or", ors[k%3]})
+			rs = append(rs, rl{name: "or", p: ors[k%3]})
 			if k%2 == 1 {
-				rs = append(rs, rl{"nullable", boolParams()[k%4/2]})
+				rs = append(rs, rl{name: "nullable", p: boolParams()[k%4/2]})
 			}
 			out = append(out, rcase{c, rs})
 			k++
@@ -855,6 +929,29 @@ func evalCase(r *rand.Rand, rc rcase) outcome {
 				Model: "the verdict of Check is the same for every ordering of the rules"})
 		}
 	}
+	// spelling independence: the same rules in the first order with every name bare / every name quoted
+	if !orderDiff {
+		for _, q := range []bool{false, true} {
+			text := schemaText(rc.c, annotation(spelled(rc.rs, q)))
+			if text == firstText {
+				continue
+			}
+			v := check(text)
+			if v.timeout {
+				o.diffs = append(o.diffs, vh.Diff{Component: "C08-spelling", Input: replay(rc.c, text), Impl: "TIMEOUT", Model: "Check terminates"})
+				o.fatal = true
+				return o
+			}
+			add("spelling_variants_checked")
+			if v.ok != firstV.ok {
+				o.diffs = append(o.diffs, vh.Diff{Component: "C08-spelling",
+					Input: replay(rc.c, firstText) + "\n--- versus the same rules with other spellings of the rule names ---\n" + text,
+					Impl:  fmt.Sprintf("as generated: %s; respelled: %s", firstV.text, v.text),
+					Model: `the verdict does not depend on whether a rule name is written bare (min) or quoted ("min")`})
+				break
+			}
+		}
+	}
 	if firstV.ok != want && !orderDiff {
 		w := "reject"
 		if want {
@@ -887,6 +984,11 @@ func evalCase(r *rand.Rand, rc rcase) outcome {
 	for nm := range names {
 		add("rule_" + nm)
 	}
+	for _, x := range rc.rs {
+		if x.quoted {
+			add("quoted_rule_" + x.name)
+		}
+	}
 	return o
 }
 
@@ -894,7 +996,7 @@ const ruleText = "node contexts {root, object property, array item} x {integer, 
 	"(15 literal rules + or + enum + allOf + an unknown name) with 2-14 parameter choices each (in-range, boundary, out-of-range relative to the example; false-valued booleans; ordered/equal/reversed pairs); " +
 	"quick: all single rules x all parameters x all contexts, sampled sets of size 2-3 (60% drawn from the rules relevant to the node kind), sampled sets with one duplicated rule; " +
 	"thorough: also sizes 4-6 and random larger; every set is checked in ALL orderings (<=4 rules) or 24 sampled orderings; " +
-	"checks: verdict equal across orderings, verdict equal to the specification predicate rulesOK; nontrivial = at least 2 rules (orderings exist)"
+	"rule names spelled bare, quoted or mixed (40%/20%/40%), also inside or rule-sets; checks: verdict equal across orderings, equal for all-bare and all-quoted spelling, and equal to the specification predicate rulesOK (which does not see the spelling); nontrivial = at least 2 rules (orderings exist)"
 
 // Run is the entry point of `vh c08-rules`.
 func Run(args []string) {
@@ -963,7 +1065,7 @@ func Run(args []string) {
 				k++
 				for _, n := range ruleNames {
 					for _, pa := range params(n, c) {
-						jobs <- job{-1 - k, &rcase{c, []rl{{n, pa}}}}
+						jobs <- job{-1 - k, &rcase{c, []rl{{name: n, p: pa}}}}
 						k++
 					}
 				}
